@@ -33,6 +33,9 @@ def shapes(rnd):
     # a command inside a word and no command at top level (and the converse)
     out.append([("seq", [("sub", [L("--user="), C("echo alice")]), L("done")])])
     out.append([("seq", [("sub", [L("--k="), ("alt", [L("a"), L("b")])]), C("echo top")])])
+    # characters that the double-quote rules of the four shells treat differently (backtick, dollar, backslash, quote), in literals,
+    # descriptions and inside a word: the tables are read back by each shell's own rules
+    out.append([("alt", [("seq", [L("a`b", "use `x` $y \"z\" \\ here"), L("c$d")]), L("e\\f"), L("g\"h", "it's"), ("sub", [L("--q=`"), ("alt", [L("$1"), L("\\n")])])])])
     return out
 
 
